@@ -382,7 +382,8 @@ macro_rules! harness_g {
     };
 }
 
-/// Same as `harness!`, with `compute::linalg::solve` replaced by its contract (`stubs::solve_contract`).
+/// Same as `harness!`, with `compute::linalg::solve` and `compute::linalg::invert_matrix` replaced by their
+/// contracts (`stubs::solve_contract`, `stubs::invert_contract`).
 #[macro_export]
 macro_rules! harness_s {
     (name=$name:ident, prop=$p:ident, mode=$m:ident, kind=$k:ident, tier=$t:ident, unwind=$u:expr, $body:block) => {
@@ -391,6 +392,7 @@ macro_rules! harness_s {
         #[cfg_attr(kani, kani::stub(compute::linalg::is_square, $crate::stubs::is_square))]
         #[cfg_attr(kani, kani::stub(f64::abs, $crate::rt::fabs))]
         #[cfg_attr(kani, kani::stub(compute::linalg::solve, $crate::stubs::solve_contract))]
+        #[cfg_attr(kani, kani::stub(compute::linalg::invert_matrix, $crate::stubs::invert_contract))]
         pub fn $name() {
             $body;
             $crate::rt::finish();
